@@ -31,7 +31,7 @@ Begin(id, fit, usr) ==
      THEN \* a different fit for a stored curve is refused, nothing changes
           UNCHANGED <<file, committed, fly>>
      ELSE /\ fly' = [on |-> TRUE, id |-> id, fit |-> fit, usr |-> usr,
-                     steps |-> StepsFor(file, id, HashOf[id]), pc |-> 0]
+                     steps |-> StepsFor(file, id, HashOf[id], fit), pc |-> 0]
           /\ UNCHANGED <<file, committed>>
 
 WriteStep ==
